@@ -244,13 +244,59 @@ def return_classes(prog, func, depth=0):
     return out
 
 
+_FIELD_CACHE = {}
+
+
+def field_classes(prog, ci):
+    """field -> [class] for fields of ci that only ever receive None or a freshly constructed instance of one package class
+    (self.f = K(...) in a method of ci or of its bases)"""
+    if ci is None:
+        return {}
+    key = (id(prog), ci.qual)
+    if key in _FIELD_CACHE:
+        return _FIELD_CACHE[key]
+    vals = {}
+    for k in prog.mro(ci):
+        for m in k.methods.values():
+            for n in walk_body(m.node):
+                if isinstance(n, ast.Assign):
+                    for t in n.targets:
+                        if isinstance(t, ast.Attribute) and dotted(t.value) == "self":
+                            vals.setdefault(t.attr, []).append((m, n.value))
+                elif isinstance(n, (ast.AugAssign, ast.AnnAssign)) and isinstance(n.target, ast.Attribute) and dotted(n.target.value) == "self":
+                    vals.setdefault(n.target.attr, []).append((m, None))
+    out = {}
+    for f, vs in vals.items():
+        classes = []
+        ok = True
+        for m, v in vs:
+            if isinstance(v, ast.Constant) and v.value is None:
+                continue
+            c = prog.resolve_class(m.module, v.func) if isinstance(v, ast.Call) and isinstance(v.func, (ast.Name, ast.Attribute)) else None
+            if c is None:
+                ok = False
+                break
+            if c not in classes:
+                classes.append(c)
+        if ok and len(classes) == 1:
+            out[f] = classes
+    _FIELD_CACHE[key] = out
+    return out
+
+
 def inferred_local_classes(prog, fi):
-    """local name -> classes, from assignments  x = Cls(...)  /  x = f(...)  where f returns instances of package classes"""
+    """local name -> classes, from assignments  x = Cls(...)  /  x = f(...)  where f returns instances of package classes, and
+    x = self.f for a field that only holds instances of one package class"""
     key = (id(prog), fi.qual)
     if key in _LOCAL_CACHE:
         return _LOCAL_CACHE[key]
     out = {}
     for n in walk_body(fi.node):
+        if isinstance(n, ast.Assign) and isinstance(n.value, ast.Attribute) and dotted(n.value.value) == "self" and len(n.targets) == 1 \
+                and isinstance(n.targets[0], ast.Name) and fi.cls is not None:
+            for k in field_classes(prog, fi.cls).get(n.value.attr, []):
+                if k not in out.setdefault(n.targets[0].id, []):
+                    out[n.targets[0].id].append(k)
         if isinstance(n, ast.Assign) and isinstance(n.value, ast.Call) and len(n.targets) == 1 and isinstance(n.targets[0], ast.Name):
             c = prog.resolve_class(fi.module, n.value.func) if isinstance(n.value.func, (ast.Name, ast.Attribute)) else None
             cls_ = [c] if c is not None else []
@@ -280,6 +326,10 @@ def _receiver_classes(prog, fi, recv, local_classes):
     inferred = inferred_local_classes(prog, fi)
     if recv in inferred:
         return inferred[recv]
+    if recv.startswith("self.") and recv.count(".") == 1 and fi.cls is not None:
+        fc = field_classes(prog, fi.cls).get(recv[5:])
+        if fc:
+            return fc
     for key in ((fi.qual, recv), (fi.module.name, recv), ("*", recv)):
         if key in RECEIVERS:
             if RECEIVERS[key] == EXTERNAL:
